@@ -615,10 +615,15 @@ impl Fleet {
                 }
                 Err(err) => {
                     let should_retry = is_retryable_error(&err);
+                    // Anything but a well-formed error response may have left the
+                    // cached connection unusable (closed by the peer, or shut down
+                    // by the client after a protocol error): never keep it.
+                    if !matches!(err, RepeError::ServerError { .. }) {
+                        invalidate_client(&node);
+                    }
                     last_error = Some(err);
 
                     if should_retry {
-                        invalidate_client(&node);
                         if attempt + 1 < self.options.retry_policy.max_attempts {
                             thread::sleep(self.options.retry_policy.delay);
                         }
@@ -663,10 +668,15 @@ impl Fleet {
                 }
                 Err(err) => {
                     let should_retry = is_retryable_error(&err);
+                    // Anything but a well-formed error response may have left the
+                    // cached connection unusable (closed by the peer, or shut down
+                    // by the client after a protocol error): never keep it.
+                    if !matches!(err, RepeError::ServerError { .. }) {
+                        invalidate_client(&node);
+                    }
                     last_error = Some(err);
 
                     if should_retry {
-                        invalidate_client(&node);
                         if attempt + 1 < self.options.retry_policy.max_attempts {
                             thread::sleep(self.options.retry_policy.delay);
                         }
@@ -750,6 +760,7 @@ fn is_retryable_error(err: &RepeError) -> bool {
         RepeError::Io(io_err) => matches!(
             io_err.kind(),
             std::io::ErrorKind::TimedOut
+                | std::io::ErrorKind::BrokenPipe
                 | std::io::ErrorKind::ConnectionRefused
                 | std::io::ErrorKind::ConnectionReset
                 | std::io::ErrorKind::ConnectionAborted
